@@ -42,7 +42,7 @@ class C08(Prop):
     REQUIRED_CLASSES = ["op:" + o for o in OPS] + ["k>=2", "custom_hooks", "default_allocator", "print_several_KB"]
 
     def budget(self, tier):
-        return {"workers": 14, "examples": 1200 if tier == "quick" else 9000}
+        return {"workers": 14, "examples": 2500 if tier == "quick" else 15000}
 
     def strategy(self, tier):
         numbers = st.one_of(gens.finite_doubles(), st.sampled_from([1.0, 0.5, 1e300]))
